@@ -33,6 +33,9 @@ type ledBatch struct {
 	// NoWait: do not wait for LED frames (life-cycle scenarios: disconnect while the LED goroutine is
 	// still connecting, bursts of events); frames are then not attributed to steps
 	NoWait bool `json:"nowait"`
+	// AsyncMidi: MIDI-input messages are handed over without the sentinel that waits until they are processed,
+	// so that nothing the harness does orders the MIDI-input goroutine before the next key event (race detection)
+	AsyncMidi bool `json:"async_midi"`
 }
 
 type ledStep struct {
@@ -200,7 +203,11 @@ func cmdLed(args []string) error {
 					}
 					res.stepOut = stepOut{Ev: "midiin", O: [][]int{}}
 					res.MsgIn = st.Msg
-					for _, m := range []midi.Event{msg, {midi.TimingClock}} { // the second send returns once the first is processed
+					ms := []midi.Event{msg, {midi.TimingClock}} // the second send returns once the first is processed
+					if b.AsyncMidi {
+						ms = ms[:1]
+					}
+					for _, m := range ms {
 						select {
 						case midiIn <- m:
 						case <-time.After(stepTimeout):
